@@ -157,7 +157,7 @@ func checkSeqResponses(h *seqHarness, x *vs.Exec) []Viol {
 		for _, mem := range m.Members {
 			n := len(enters[mem.Method])
 			switch mem.Kind {
-			case 'n', 'h':
+			case 'n', 'h', 'z':
 				Hit("C01.R8")
 				if x.Outcome == "ok" && (n != 1 || len(exits[mem.Method]) != 1) {
 					v = append(v, Viol{"C01.R8", fmt.Sprintf("notification %s: handler ran %d times", mem.Method, n)})
@@ -255,16 +255,16 @@ func c01Seq(tokens []string, conc int, b Bounds) *Scenario {
 	}
 }
 
-var c01Alphabet = []string{"c", "f", "n", "[cc]", "[cn]", "[nc]", "[nn]", "[n]", "[c]", "u", "v", "[cx]", "[yc]", "x", "[cd]", "i"}
+var c01Alphabet = []string{"c", "f", "n", "[cc]", "[cn]", "[nc]", "[nn]", "[n]", "[c]", "u", "v", "[cx]", "[yc]", "x", "[cd]", "i", "z", "[zz]"}
 
 func c01Scenarios(tier string) []*Scenario {
 	var out []*Scenario
-	running := map[string]bool{"c": true, "f": true, "n": true, "[cc]": true, "[cn]": true, "[nc]": true, "[nn]": true, "[n]": true, "[c]": true, "[cx]": true, "[yc]": true, "[cd]": true}
+	running := map[string]bool{"z": true, "[zz]": true, "c": true, "f": true, "n": true, "[cc]": true, "[cn]": true, "[nc]": true, "[nn]": true, "[n]": true, "[c]": true, "[cx]": true, "[yc]": true, "[cd]": true}
 	if tier == "quick" {
 		for _, a := range c01Alphabet {
 			out = append(out, c01Seq([]string{a}, 2, Bounds{2, -1, 1}))
 		}
-		for _, a := range []string{"c", "n", "[cn]", "[nc]", "[cc]"} {
+		for _, a := range []string{"c", "n", "[cn]", "[nc]", "[cc]", "z"} {
 			for _, b := range c01Alphabet {
 				out = append(out, c01Seq([]string{a, b}, 2, Bounds{1, -1, 0}))
 			}
@@ -293,7 +293,7 @@ func c01Scenarios(tier string) []*Scenario {
 		out = append(out, c01Seq(p, 2, Bounds{3, -1, 1}))
 		out = append(out, c01Seq(p, 1, Bounds{2, -1, 0}))
 	}
-	sub := []string{"c", "n", "[cn]", "[cc]", "d", "y"}
+	sub := []string{"c", "n", "[cn]", "[cc]", "d", "y", "z"}
 	for _, a := range sub {
 		for _, b := range sub {
 			for _, c := range sub {
